@@ -48,11 +48,12 @@ def words : Str → List Str
 def stripChar (ch : Char) (s : Str) : Str :=
   ((s.dropWhile (· = ch)).reverse.dropWhile (· = ch)).reverse
 
-/-- `_get_include_filename`: second word of the line before any `#`, with surrounding quotes removed -/
-def includeName (l : Str) : Res Str :=
+/-- `_get_include_filename`: second word of the line before any `#`, with surrounding quotes removed; `none` when the
+line names no file (the line is then left to the parser, which reports the syntax error) -/
+def includeName (l : Str) : Option Str :=
   match words (beforeHash l) with
-  | _ :: name :: _ => .ok (stripChar '"' (stripChar '\'' name))
-  | _ => .error .indexError
+  | _ :: name :: _ => some (stripChar '"' (stripChar '\'' name))
+  | _ => none
 
 /-- the loop over the lines of one file; `sub` expands an included file one level deeper, or is `none`
 when the nesting limit is reached -/
@@ -65,8 +66,11 @@ def expandWith (fs : Str → Option Str) (resolve : Str → Str) (sub : Option (
       | none => .error .valueError           -- "Maximum nested include exceeded! (MaxNested=5)"
       | some deeper =>
         match includeName l with
-        | .error e => .error e
-        | .ok name =>
+        | none =>
+          match expandWith fs resolve sub r with
+          | .error e => .error e
+          | .ok rest => .ok (l :: rest)
+        | some name =>
           match fs (resolve name) with
           | none => .error .ioError
           | some text =>
